@@ -142,6 +142,25 @@ Theorem C07_stream_pending_only_inner : forall (sched : list sans) (has c h : bo
 Proof. exact stream_pending_only_inner. Qed.
 Print Assumptions C07_stream_pending_only_inner.
 
+(* A managed read that FAILS after the kernel has consumed a ring buffer (the
+   completion carries the error AND the buffer id: EISDIR, EBADF, EIO, a
+   cancellation; the same path serves EOF and data): the driver's set_result
+   takes the buffer whatever the result is, so when the operation is dropped
+   the buffer is back at the ring tail, owned by the ring only, and the ring is
+   as long as before — the pool does not shrink. *)
+Theorem C07_error_completion_returns_buffer :
+  forall (size : nat) (s0 : st) (ls : list label) (s : st) (k : nat) (o : opst) (id : nat) (rest : list nat) (r : rescls),
+  1 <= size -> (NN size <= 32768)%N ->
+  pool_new true size = Ok s0 -> steps s0 ls = Some (Ok s) -> released s = false ->
+  ring_ids s = id :: rest -> cq s = [] ->
+  nth_error (ops s) k = Some o -> o_inflight o = true -> o_kdone o = false -> o_buf o = [] ->
+  r <> RNoBufs ->
+  exists s', steps s [LKernel k true false r; LCqe; LOpBufDrop k] = Some (Ok s') /\
+    released s' = false /\ ring_ids s' = rest ++ [id] /\ owners s' id = [OwRing] /\
+    length (ring_ids s') = length (ring_ids s).
+Proof. exact c07_error_completion_returns_buffer. Qed.
+Print Assumptions C07_error_completion_returns_buffer.
+
 (* No reachable step panics: the `expect("Buffer should not be in use")` of
    set_result, the `expect("Buffer should be available")` of pop, the checked u16
    addition and the slice index of add_buffer never fire. *)
@@ -291,3 +310,37 @@ Proof.
   split; vm_compute; reflexivity.
 Qed.
 Print Assumptions C07_nonvacuous_stream.
+
+(* a failing read on a ring of two: the completion carries RErr and buffer 0;
+   the operation owns it until it is dropped, then the ring has both again *)
+Example C07_nonvacuous_error_completion :
+  exists s0 s, pool_new true 2 = Ok s0 /\
+    steps s0 [LOpNew; LSubmit 0; LKernel 0 true false RErr; LCqe] = Some (Ok s) /\
+    owners s 0 = [OwInOp 0] /\ ring_ids s = [1] /\
+    (exists o, nth_error (ops s) 0 = Some o /\ o_res o = Some RErr) /\
+    exists s', steps s [LOpBufDrop 0] = Some (Ok s') /\ ring_ids s' = [1; 0] /\ quiet s' = true.
+Proof.
+  eexists. eexists. split; [vm_compute; reflexivity|]. split; [vm_compute; reflexivity|].
+  split; [vm_compute; reflexivity|]. split; [vm_compute; reflexivity|].
+  split; [eexists; split; vm_compute; reflexivity|].
+  eexists. split; [vm_compute; reflexivity|]. split; vm_compute; reflexivity.
+Qed.
+Print Assumptions C07_nonvacuous_error_completion.
+
+(* REFUTED variant — "set_result returns early when the result is an error"
+   (model/Pool.v cqe_early_return, not the code): after the same failing read
+   buffer 0 has NO owner, every holder is gone and the ring holds 1 of 2
+   buffers for good: conservation and exclusiveness both fail. *)
+Lemma C07_error_completion_early_return_refuted :
+  exists s0 s s', pool_new true 2 = Ok s0 /\
+    steps s0 [LOpNew; LSubmit 0; LKernel 0 true false RErr] = Some (Ok s) /\
+    cqe_early_return s = Some (Ok s') /\
+    owners s' 0 = [] /\ quiet s' = true /\ released s' = false /\
+    length (ring_ids s') = 1 /\ nbuf s' = 2 /\
+    ~ (length (ring_ids s') + n_selected s' + n_transit s' + n_inop s' + n_handles s' + length (freed s') = nbuf s').
+Proof.
+  eexists. eexists. eexists. split; [vm_compute; reflexivity|]. split; [vm_compute; reflexivity|].
+  split; [vm_compute; reflexivity|]. repeat (split; [vm_compute; reflexivity|]).
+  vm_compute. discriminate.
+Qed.
+Print Assumptions C07_error_completion_early_return_refuted.
